@@ -77,3 +77,59 @@ claim('C05', 'generator-side ground truth; per-family miss-rate monitor for the 
       'Heuristic families: run fails when misses are implausible for a miss '
       'rate <= 2% (alpha 1e-7) and any isolated miss is a VIOLATION unless '
       'listed. Known finding F19 (clustered low-weight primes).')
+claim('C01', 'boundary observer on the protobufs + runtime contracts on every '
+      'factoring helper and on util.AttachFactors',
+      'Mixed batches (healthy, primes, squares, cubes, even, powers of two, '
+      'every weak family, nested/duplicate moduli) through every registered '
+      'RSA check, through instances with hostile constructor parameters and '
+      'through CheckAllRSA; one division per recorded value.',
+      'Division is the oracle. Moduli < 2^63 excluded. Expensive families '
+      '(low Hamming weight, smooth) are capped per shard.')
+claim('C02', 'boundary observer + contracts on BatchDL/ExtendedBatchDL; logs '
+      're-multiplied by OpenSSL/model; relation strings parsed and evaluated',
+      'Structured, near-range and random EC keys on all nine curves; '
+      'signature batches built to provoke wrong guesses (healthy, arbitrary '
+      'r/s, guessable issuer keys, biased A next to healthy B, signatures '
+      'valid under A but labelled B, U2F, GMP/Java LCG, mixed curves) through '
+      'all seven nonce checks.',
+      'OpenSSL for k*G (cross-checked against the model). 2^-256 coincidences '
+      'ignored.')
+claim('C06', 'independent evaluation of each closed-form criterion next to the '
+      'check class, both directions',
+      'Boundary moduli/exponents and encodings; CRT-built moduli meeting all, '
+      'or all but one, of the 39/48 residue conditions; custom Storage '
+      'deny-lists and keypair tables; all 768 covered keypair seeds '
+      'regenerated; all curve identifiers and coordinate mutations; synthetic '
+      'cofactor-4 curve for the subgroup clause.',
+      'Keypair workload uses the repository\'s own generator emulation '
+      '(common-mode assumption recorded in evidence).')
+claim('C09', 'model signer with known nonce + OpenSSL as independent signer '
+      '(random and RFC 6979 deterministic nonces) + conversion round trips',
+      'All nine curves, edge and random d/k, hash lengths 0..80 bytes, '
+      'leading-zero encodings; for OpenSSL signatures the recovered nonce '
+      'must reproduce r and, for deterministic signing, equal the RFC 6979 '
+      'nonce computed by an independent HMAC-DRBG transcription.',
+      'OpenSSL and hashlib/hmac trusted.')
+claim('C16', 'offline history checker over boundary-observer snapshots with a '
+      'sequential model of add-or-update semantics',
+      'Random histories of 2..12 calls (single checks, repeated, entry points, '
+      'subsets) on fresh and pre-annotated RSA/EC/ECDSA protobufs; exact '
+      'clauses after entry points, monotone clauses after every call, '
+      'issuer-key verdict against CheckAllEC on a fresh key.',
+      'Documented severities frozen in spec/severities.json. max_diff 2^8.')
+claim('C17', 'differential monitor: identical artifacts judged alone (fresh '
+      'process), in batches, permuted, with healthy neighbours, after warm-up;'
+      ' offline comparison of verdict records',
+      'Seven contexts per artifact group for RSA, EC and ECDSA artifacts incl. '
+      'table-edge private keys, duplicates, shared factors; individually '
+      'judging checks compared across all contexts, jointly judging ones '
+      'across the batch contexts.',
+      'Known finding F6 (over-reach zone) and F12s (sporadic lattice misses) '
+      'are classified by mechanism.')
+claim('C18', 'boundary observer: exception / non-bool return from any entry '
+      'point or check class on grammar-generated hostile well-formed batches',
+      'Batch sizes 0,1,2,3 and larger for every check class and entry point; '
+      'degenerate moduli and exponents; all curve ids; coordinates 0, p, x+p, '
+      'huge, off-curve and their duplicates and re-encodings; signatures with '
+      'edge r/s, empty and long hashes, invalid/unknown/shared issuer keys.',
+      'r or s == 0 mod n outside the quantifier; hangs are inconclusive.')
